@@ -8,13 +8,15 @@ open Reduino.Lang
 /-- outcome of the C side on a list of setup statements -/
 def TopOut (te : C.TyEnv) (s0 : Store) (te1 : C.TyEnv) (stp' : Py.St) (r : Except Err Py.St) : Prop :=
   (∃ stc', r = .ok stc' ∧ StRel te stp' stc' ∧ (∀ x, te1.lookup x = none → stc'.store.get x = s0.get x)) ∨
-  r = .error .overflow
+  UB r
 
 theorem Sim1_mono {te : C.TyEnv} {stp' : Py.St} {f F : Nat} {s : Stmt} {st : Py.St} (hle : f ≤ F)
     (h : Sim1 te stp' (C.exec te f s st)) : Sim1 te stp' (C.exec te F s st) := by
   have : C.exec te F s st = C.exec te f s st := by
     apply C_exec_mono hle
-    rcases h with ⟨stc', h, _⟩ | h <;> rw [h] <;> intro e <;> cases e
+    rcases h with ⟨stc', h, _⟩ | h
+    · rw [h]; intro e; cases e
+    · exact UB_ne_fuel h
   rw [this]; exact h
 
 /-- one run-time assignment at top level, executed under the final type environment -/
@@ -93,8 +95,11 @@ theorem top_sim (all : List String) (tef : C.TyEnv) (glf : List (String × Ty ×
           exact houtb
         · obtain ⟨lb, hlb⟩ : ∃ lb, acc1.setup = lb ++ acca.setup := ⟨lb0, hlb0⟩
           refine ⟨lb ++ la, by rw [hlb, hla, List.append_assoc], ?_⟩
-          rw [List.reverse_append, execList_append_err _ hc1]
-          right; rfl
+          rw [List.reverse_append]
+          right
+          rcases hc1 with hc1 | hc1
+          · rw [execList_append_err _ hc1]; exact .inl rfl
+          · rw [execList_append_err _ hc1]; exact .inr rfl
   | assign x e =>
     intro acc acc1 te1 f stp stc stp' hle h2 h hall hsub hgl hst hP hpy hfl
     obtain ⟨hwt, hc⟩ := trTop_assign_cases h2 h
@@ -127,7 +132,7 @@ theorem top_sim (all : List String) (tef : C.TyEnv) (glf : List (String × Ty ×
           have hcvv : cv = C.conv (inferTy acc.te e) v := by
             rcases expr_sim tef [] [] (Rel_nil _ _) e v hwf hv0 with hc | hc
             · rw [hc] at hcv; cases hcv; rw [htyf]
-            · rw [hc] at hcv; cases hcv
+            · exact absurd hcv (UB_not_ok hc)
           refine ⟨stc, rfl, ⟨hst.tr, hst.fl, ?_⟩, ?_⟩
           · intro y ty hy pv hpv
             by_cases hyx : y = x
